@@ -10,7 +10,7 @@ from harness.c20_sched import GuardScheduler
 
 RULE = ('two real threads each calling TrajectoryStore.create(); sys.settrace line events of the guard region of __init__ are '
         'gated by a deterministic scheduler; all interleavings of n grants per thread (quick n=4: 70 schedules, thorough n=7: '
-        '3432) plus seeded random longer schedules; the outcome (which constructors succeed) and the number of traced lines per '
+        '3432) plus seeded random longer schedules; plus the WHOLE constructor with one pre-emption at every traced line of store.py (both roles); the outcome (which constructors succeed) and the number of traced lines per '
         'thread are compared with the Lean model run on the same (effective) schedule; sequential orders (second thread after '
         'the first finished / after it closed its store, same thread again) are run directly; non-trivial = both threads '
         'entered the guard before either left it; distinct = distinct schedules')
@@ -68,6 +68,28 @@ def main(ctx):
             ctx.diverge('thread guard traced line count: model vs implementation',
                         {'schedule': s, 'effective': eff, 'impl_lines': [len(lines[0]), len(lines[1])], 'model_steps': m['steps'],
                          'lines': {str(k): [g.line_text(x) for x in v] for k, v in lines.items()}})
+    # the whole constructor, one pre-emption: thread A runs k traced lines of store.py (anywhere inside __init__ and the
+    # helpers it calls), then thread B runs its constructor to completion, then A resumes — for every k, both roles
+    res, lines, _, _ = g.run([0] * 2000, region='ctor')
+    nlines = len(lines[0])
+    ctx.extra['constructor_lines_traced'] = nlines
+    BIG = 4 * nlines + 50
+    step = 1 if ctx.tier == 'thorough' or nlines <= 80 else 2
+    for first in (0, 1):
+        other = 1 - first
+        for k in range(0, nlines + 1, step):
+            s = [first] * k + [other] * BIG + [first] * BIG
+            res, ln, blocked, eff = g.run(s, region='ctor')
+            ctx.case('ctor:%d:%d' % (first, k), nontrivial=0 < k < nlines, sample={'preempt_after': k, 'first': first, 'result': res} if k in (1, 5) else None)
+            ctx.count('ctor_outcome:%s/%s' % (res.get(0), res.get(1)))
+            if res.get(0) == 'ok' and res.get(1) == 'ok':
+                ctx.clause_fail('mutual_exclusion', {'schedule': [first] * k + [other] * 3 + ['…'], 'region': 'constructor', 'preempt_after_lines': k,
+                                                     'first_thread': first, 'result': res,
+                                                     'last_lines_before_preemption': [g.line_text(x) for x in ln[first][max(0, k - 3):k]]},
+                                detail=f'both constructors succeeded: thread {first} pre-empted after {k} traced lines of its constructor, '
+                                       f'thread {other} ran to completion, thread {first} resumed')
+                break
+    g.reset_class_state()
     # sequential orders
     seq_results = sequential(ctx)
     ctx.extra['sequential'] = seq_results
@@ -145,6 +167,13 @@ def replay(ctx, path):
     j = json.loads(open(path).read())
     case = j.get('first', j).get('case', j)
     g = GuardScheduler()
+    if case.get('region') == 'constructor':
+        k, first = case['preempt_after_lines'], case['first_thread']
+        case = dict(case, schedule=[first] * k + [1 - first] * 2000 + [first] * 2000)
+        res, lines, blocked, eff = g.run(case['schedule'], region='ctor')
+        print('pre-empt thread', first, 'after', k, 'lines ->', res)
+        g.reset_class_state()
+        return 1 if (res.get(0) == 'ok' and res.get(1) == 'ok') else 0
     res, lines, blocked, eff = g.run(case['schedule'])
     print('schedule', case['schedule'], '->', res)
     for k, v in lines.items():
